@@ -60,7 +60,7 @@ class System:
         else:
             flt = config.get("filter")
             if flt:
-                kwargs.update(filter_vorticity=True, filter_setting_dict={"order": flt["order"], "type": flt["type"]})
+                kwargs.update(filter_vorticity=True, filter_setting_dict=flt)  # the caller's own dict object, reused for every construction
             kwargs["poisson_solver_type"] = {"greens": "greens_function_convolution", "fastdiag": "fast_diagonalisation"}[config.get("poisson", "greens")]
             self.flow = sps.UnboundedNavierStokesFlowSimulator3D(**kwargs)
         flow = self.flow
